@@ -17,6 +17,8 @@ enum L {
     NewKey(usize),
     Rewrite(usize),
     Snapshot(usize),
+    /// a space-reclaiming snapshot
+    SnapshotReclaim(usize),
     ShutdownRestart,
     /// as ShutdownRestart, but the next start-up meets the directory entries in the opposite order
     ShutdownRestartReversed,
@@ -94,7 +96,7 @@ fn unique_ids(dbs: &Arc<Databases>) -> Result<(), String> {
 }
 
 /// restart on a copy of `dir`; the oplog must be discarded or decode to the recorded intents
-fn restart_check(dir: &std::path::Path, intents: &BTreeMap<u64, Intent>, snapshotted: &BTreeSet<String>, orphaned: &BTreeSet<u64>, snapshotting: Option<&str>) -> Result<(), (String, String, bool)> {
+fn restart_check(dir: &std::path::Path, intents: &BTreeMap<u64, Intent>, snapshotted: &BTreeSet<String>, orphaned: &BTreeSet<u64>, snapshotting: Option<&str>, reclaiming: bool) -> Result<(), (String, String, bool)> {
     let copy = fresh_dir("c16-restart");
     crash::copy_tree(dir, &copy);
     let ctx2 = NodeCtx::new(copy.clone(), 5_000_000);
@@ -104,9 +106,12 @@ fn restart_check(dir: &std::path::Path, intents: &BTreeMap<u64, Intent>, snapsho
             Err(e) => {
                 // known: a kill inside the very first snapshot of a database leaves its key file
                 // without a values file (same root cause as the C11 findings)
-                let soft = snapshotting.map(|d| !snapshotted.contains(d)).unwrap_or(false);
+                let first = snapshotting.map(|d| !snapshotted.contains(d)).unwrap_or(false);
+                // known as well (C11's KF-C11-07/08 seen from here): a kill while a reclaiming
+                // snapshot has the values file moved away leaves a keys file without a values file
+                let soft = first || reclaiming;
                 let loc = take_panic_loc().unwrap_or_default().replace("/repo/", "");
-                return Err((if soft { "startup-panic-in-first-snapshot".to_string() } else { "startup-panic".to_string() }, format!("{} at {}", panic_msg(&e), loc), soft));
+                return Err((if first { "startup-panic-in-first-snapshot".to_string() } else if reclaiming { "startup-panic-in-killed-reclaiming-snapshot".to_string() } else { "startup-panic".to_string() }, format!("{} at {}", panic_msg(&e), loc), soft));
             }
             Ok(n) => n,
         };
@@ -126,6 +131,12 @@ fn restart_check(dir: &std::path::Path, intents: &BTreeMap<u64, Intent>, snapsho
                 // known: a kill inside a database's very first snapshot leaves its data files
                 // without a metadata file; start-up then gives it the number of databases loaded
                 // so far as identifier, which can be the identifier of another database
+                // known (the C11 findings seen from here): a reclaiming snapshot moves the keys file
+                // away before it writes the new one; a kill in that window leaves the database
+                // without a keys file, it is not loaded, and the valid log still refers to it
+                if !soft && reclaiming && got_db.is_none() && snapshotting == Some(intent.0.as_str()) {
+                    return Err(("database-lost-by-a-killed-reclaiming-snapshot".to_string(), format!("record t={} written for database {} (id {}) decodes to no database after restart", t, intent.0, d), true));
+                }
                 let first_snapshot = snapshotting.map(|d| !snapshotted.contains(d)).unwrap_or(false);
                 if !soft && first_snapshot {
                     return Err(("id-of-database-without-metadata-collides".to_string(), format!("record t={} written for database {} (id {}) decodes to {:?} after restart", t, intent.0, d, got_db), true));
@@ -227,7 +238,7 @@ impl SeqModel for C16 {
     fn enabled(&self, w: &W, letter: usize) -> bool {
         match &self.letters[letter] {
             L::CreateDb(i) => !w.node.dbs.has_db(DBS[*i]),
-            L::NewKey(i) | L::Snapshot(i) => w.node.dbs.has_db(DBS[*i]),
+            L::NewKey(i) | L::Snapshot(i) | L::SnapshotReclaim(i) => w.node.dbs.has_db(DBS[*i]),
             L::Rewrite(i) => w.node.dbs.has_db(DBS[*i]) && w.first_key.contains_key(i),
             _ => true,
         }
@@ -260,12 +271,15 @@ impl SeqModel for C16 {
                 L::Snapshot(i) => {
                     w.admin.exec(&w.node, &format!("snapshot false {}", DBS[*i]));
                 }
+                L::SnapshotReclaim(i) => {
+                    w.admin.exec(&w.node, &format!("snapshot true {}", DBS[*i]));
+                }
                 L::ShutdownRestart | L::ShutdownRestartReversed => restart_kind = Some(true),
                 L::KillRestart => restart_kind = Some(false),
             }
             w.absorb();
             match &l {
-                L::Snapshot(_) => w.node.run_snapshot_queue(),
+                L::Snapshot(_) | L::SnapshotReclaim(_) => w.node.run_snapshot_queue(),
                 L::ShutdownRestart | L::ShutdownRestartReversed => nundb::db_ops::safe_shutdown(&w.node.dbs),
                 _ => {}
             }
@@ -279,7 +293,7 @@ impl SeqModel for C16 {
             let _ = std::fs::remove_dir_all(&out);
             return v("service-loop-died", format!("{:?}: {}", l, d));
         }
-        let snapshotting: Option<&str> = if let L::Snapshot(i) = &l { Some(DBS[*i]) } else { None };
+        let snapshotting: Option<&str> = if let L::Snapshot(i) | L::SnapshotReclaim(i) = &l { Some(DBS[*i]) } else { None };
         let mut softs: Vec<StepViolation> = vec![];
         let mut soft_seen: BTreeSet<String> = BTreeSet::new();
         // a kill at any instant of this step: the directory before each system call
@@ -292,7 +306,7 @@ impl SeqModel for C16 {
                     g.insert(dir_digest(&dir));
                 }
             }
-            if let Err((clause, detail, soft)) = restart_check(&dir, &w.intents, &w.snapshotted, &w.orphaned, snapshotting) {
+            if let Err((clause, detail, soft)) = restart_check(&dir, &w.intents, &w.snapshotted, &w.orphaned, snapshotting, matches!(l, L::SnapshotReclaim(_))) {
                 let op = ops[k].split(' ').take(2).collect::<Vec<_>>().join(" ");
                 let sv = StepViolation {
                     clause: format!("kill:{}", clause),
@@ -310,7 +324,7 @@ impl SeqModel for C16 {
             }
         }
         let _ = std::fs::remove_dir_all(&out);
-        if let L::Snapshot(i) = &l {
+        if let L::Snapshot(i) | L::SnapshotReclaim(i) = &l {
             w.snapshotted.insert(DBS[*i].to_string());
         }
         // identifiers unique while the node lives
@@ -318,7 +332,7 @@ impl SeqModel for C16 {
             return v("identifier-shared", format!("after {:?}: {}", l, e));
         }
         // the state at the end of the step, restarted (kill right after the step)
-        if let Err((clause, detail, soft)) = restart_check(&w.ctx.dir, &w.intents, &w.snapshotted, &w.orphaned, None) {
+        if let Err((clause, detail, soft)) = restart_check(&w.ctx.dir, &w.intents, &w.snapshotted, &w.orphaned, None, false) {
             let sv = StepViolation { clause: format!("restart:{}", clause), detail: format!("restart after {:?}: {}", l, detail), shape: if soft { Some(format!("restart:{}", clause)) } else { None }, soft };
             if !soft {
                 return vec![sv];
@@ -391,6 +405,7 @@ pub fn run(run: &mut Run) {
         letters3.push(L::CreateDb(i));
         letters3.push(L::NewKey(i));
         letters3.push(L::Snapshot(i));
+        letters3.push(L::SnapshotReclaim(i));
     }
     letters3.push(L::Rewrite(0));
     letters3.push(L::ShutdownRestart);
